@@ -282,6 +282,7 @@ func c03(c *Ctx) {
 	np := presenceRule(c, "rtp.(*Packet).Unmarshal", []presRow{{"Header.Padding", []string{"PaddingSize"}}})
 	np += presenceRule(c, "rtp.(*Header).Unmarshal", []presRow{{"Extension", []string{"ExtensionProfile"}}})
 	r.Floor("C03 presence rows", np, 2)
+	r.Floor("view walk-exit contracts", viewWalkExit(c), 8)
 	pu := p.Func("rtp.(*Packet).Unmarshal")
 	c.wrapScope = map[string]bool{"rtp.(*Header).Unmarshal": true, "rtp.(*Packet).Unmarshal": true}
 	boundsRun(c, []*ssa.Function{hu, pu}, headerContracts(c, true))
